@@ -155,7 +155,7 @@ class KPRun:
         self.ops = ops
         kb = KeyBindings()
         for idx, b in enumerate(bindings):
-            ks, f, eg, gl, hid, acts = b
+            ks, f, eg, gl, hid, acts = b[:6]
             kb.add(*[self.KM[k] for k in ks], filter=self.env.top(f), eager=self.env.top(eg),
                    is_global=bool(gl))(self.make_handler(idx, acts))
         self.kb = kb
@@ -489,6 +489,7 @@ class RegRun:
         self.RK = {v: k for k, v in self.KM.items()}
         self.env = Env([0] * nc)
         self.handlers = {}
+        self.savers = {}
         self.objs = []
         self.desc = objs
         self.sel = {}
@@ -521,9 +522,28 @@ class RegRun:
             self.handlers[h] = fn
         return self.handlers[h]
 
+    def saver(self, sv):
+        """save_before callables by identity; 0 = leave the default"""
+        if sv not in self.savers:
+            def fn(event):
+                return True
+            fn._c04s = sv
+            self.savers[sv] = fn
+        return self.savers[sv]
+
+    def extra_kw(self, b):
+        """record_in_macro / save_before keyword arguments of an 8-field binding description"""
+        kw = {}
+        if len(b) > 6:
+            kw["record_in_macro"] = bool(b[6])
+            if b[7] != 0:
+                kw["save_before"] = self.saver(b[7])
+        return kw
+
     def canon(self, b):
         return [[self.RK.get(k, -7) for k in b.keys], getattr(b.handler, "_c04", -7),
-                self.env.table(b.filter, self.nc), self.env.table(b.eager, self.nc), 1 if b.is_global() else 0]
+                self.env.table(b.filter, self.nc), self.env.table(b.eager, self.nc), 1 if b.is_global() else 0,
+                1 if b.record_in_macro() else 0, getattr(b.save_before, "_c04s", 0)]
 
     # uncached recomputation from the lists of the underlying KeyBindings objects, written independently
     def spec_flat(self, i):
@@ -533,7 +553,7 @@ class RegRun:
             return [self.canon(b) for b in self.objs[i]._bindings]
         if t == 1:
             ft = [1 if feval(o[2], list(bits)) else 0 for bits in itertools.product([0, 1], repeat=self.nc)]
-            return [[b[0], b[1], [x & y for x, y in zip(ft, b[2])], b[3], b[4]] for b in self.spec_flat(o[1])]
+            return [[b[0], b[1], [x & y for x, y in zip(ft, b[2])], b[3], b[4], b[5], b[6]] for b in self.spec_flat(o[1])]
         if t == 2:
             return [b for k in o[1] for b in self.spec_flat(k)]
         if t == 3:
@@ -555,14 +575,23 @@ class RegRun:
         for op in self.ops:
             t = op[0]
             tgt = op[1]
-            if tgt >= len(self.objs) or (t in (0, 1, 2) and self.desc[tgt][0] != 0) or (t == 3 and self.desc[tgt][0] != 3):
+            if tgt >= len(self.objs) or (t in (0, 1, 2, 7) and self.desc[tgt][0] != 0) or (t == 3 and self.desc[tgt][0] != 3):
                 out.append([-1])
                 break
             try:
                 if t == 0:
-                    ks, f, eg, gl, hid, acts = op[2]
+                    ks, f, eg, gl, hid, acts = op[2][:6]
                     self.objs[tgt].add(*[self.KM[k] for k in ks], filter=self.env.build(f), eager=self.env.top(eg),
-                                       is_global=bool(gl))(self.handler(hid))
+                                       is_global=bool(gl), **self.extra_kw(op[2]))(self.handler(hid))
+                    out.append([0])
+                elif t == 7:
+                    # a pre-built Binding object (key_binding decorator), then add(...)(binding)
+                    from prompt_toolkit.key_binding.key_bindings import key_binding
+                    pre, arg = op[2], op[3]
+                    bobj = key_binding(filter=self.env.top(pre[1]), eager=self.env.top(pre[2]), is_global=bool(pre[3]),
+                                       **self.extra_kw(pre))(self.handler(pre[4]))
+                    self.objs[tgt].add(*[self.KM[k] for k in arg[0]], filter=self.env.build(arg[1]), eager=self.env.top(arg[2]),
+                                       is_global=bool(arg[3]))(bobj)
                     out.append([0])
                 elif t == 1:
                     st = 0
@@ -778,7 +807,14 @@ def gen_registry(chk, dist):
             if r < 0.3:
                 b = rand_binding(rng, rng.randrange(3), (1, 2), acts=False)
                 b[0] = rng.choice(kpool)
-                ops.append([0, n if bad else k, b])
+                if rng.random() < 0.5:
+                    b += [rng.randint(0, 1), rng.choice([0, 0, 1, 2])]
+                if rng.random() < 0.4:
+                    arg = rand_binding(rng, 0, (1, 2), acts=False)
+                    arg[0] = rng.choice(kpool)
+                    ops.append([7, n if bad else k, b, arg])      # add a pre-built Binding object
+                else:
+                    ops.append([0, n if bad else k, b])
             elif r < 0.38:
                 ops.append([1, k, rng.choice(kpool)])
             elif r < 0.46:
@@ -809,7 +845,11 @@ def gen_registry(chk, dist):
                 b = rand_binding(rng, rng.randrange(2), (1, 2), acts=False)
                 b[0] = rng.choice([[1], [2], [1, 2]])
                 b[3] = 1 if rng.random() < 0.7 else 0
-                ops.append([0, rng.randrange(2), b])
+                if rng.random() < 0.4:
+                    arg = [rng.choice([[1], [2], [1, 2]]), [0], [1], 0, 0, []]
+                    ops.append([7, rng.randrange(2), b + [rng.randint(0, 1), rng.choice([0, 1])], arg])
+                else:
+                    ops.append([0, rng.randrange(2), b])
             elif r < 0.55:
                 ops.append([3, 2, rng.choice([0, 1, 0, 1, -1])])
             elif r < 0.6:
@@ -957,7 +997,8 @@ def main(tier):
         "(keys over {a,b,Any} up to length 2 x filter {Always,c,~c} x eager {no,yes,c}) x both condition values x every sequence over "
         "{a,b,Flush,external flip of c} up to length 4; (2) histories of & | ~ over real Filter objects, compared by object identity, class, "
         "children and truth table; (3) add/remove/lookup histories through real KeyBindings and the four wrappers, compared by "
-        "(keys, handler, filter truth table, eager truth table, is_global). non-trivial = some handler fired / some operator "
+        "(keys, handler, filter truth table, eager truth table, is_global, record_in_macro, save_before identity); bindings are added as plain "
+        "functions and as pre-built Binding objects (key_binding decorator). non-trivial = some handler fired / some operator "
         "applied / some lookup returned a binding; distinct by hash of the whole case" % ("12%" if chk.tier == "thorough" else "0.4%"))
     chk.assumptions += [
         "handler effects are data (flip condition / feed keys / raise); a handler that re-enters process_keys or mutates the registry is outside the model",
@@ -1015,6 +1056,12 @@ def explain(case, wrap=0):
             if t == 0:
                 b = o[2]
                 print("  #%d.add(%s, filter=%s, eager=%s, is_global=%r)(handler%d)" % (o[1], ", ".join(repr(KN[k]) for k in b[0]), f_str(b[1]), f_str(b[2]), bool(b[3]), b[4]))
+            elif t == 7:
+                pre, arg = o[2], o[3]
+                print("  B = key_binding(filter=%s, eager=%s, is_global=%r%s)(handler%d); #%d.add(%s, filter=%s, eager=%s, is_global=%r)(B)" % (
+                    f_str(pre[1]), f_str(pre[2]), bool(pre[3]),
+                    (", record_in_macro=%r, save_before=saver%d" % (bool(pre[6]), pre[7])) if len(pre) > 6 else "", pre[4],
+                    o[1], ", ".join(repr(KN[k]) for k in arg[0]), f_str(arg[1]), f_str(arg[2]), bool(arg[3])))
             elif t == 1:
                 print("  #%d.remove(%s)" % (o[1], ", ".join(repr(KN[k]) for k in o[2])))
             elif t == 2:
